@@ -400,6 +400,9 @@ pub trait Cfg<'a, I: InK<'a>>: Sized + 'static {
     fn with_state(_p: BP<'a, I, Self>) -> BP<'a, I, Self> {
         unsupported("with_state")
     }
+    fn ctx_bare(_p: BP<'a, I, Self>, _kind: u8) -> BP<'a, I, Self> {
+        unsupported("ctx_bare")
+    }
 }
 
 pub struct CEmpty;
@@ -490,6 +493,25 @@ impl<'a, I: InK<'a>> Cfg<'a, I> for CRichCx {
         .collect::<Vec<_>>()
         .map(Val::L)
         .fin()
+    }
+    fn ctx_bare(p: BP<'a, I, Self>, kind: u8) -> BP<'a, I, Self> {
+        // the configured iterable parser itself is the parser (no collect): `Parser for IterConfigure` /
+        // `Parser for TryIterConfigure`; kinds 3..5 go through count()
+        let tc = |cfg: chumsky::combinator::RepeatedCfg, ctx: &char, span: I::Span| {
+            if *ctx != 'c' {
+                Ok(cfg.exactly(ast::count_of(*ctx)))
+            } else {
+                Err(<Rich<'a, I::Token, I::Span> as ErrK<'a, I>>::custom_err(span, "TC".into()))
+            }
+        };
+        match kind {
+            0 => Parser::map(p.repeated().configure(|cfg, ctx: &char| cfg.exactly(ast::count_of(*ctx))), |()| Val::U).fin(),
+            1 => Parser::map(p.repeated().configure(|cfg, ctx: &char| cfg.at_most(ast::count_of(*ctx))), |()| Val::U).fin(),
+            2 => Parser::map(p.repeated().try_configure(tc), |()| Val::U).fin(),
+            3 => p.repeated().configure(|cfg, ctx: &char| cfg.exactly(ast::count_of(*ctx))).count().map(Val::N).fin(),
+            4 => p.repeated().configure(|cfg, ctx: &char| cfg.at_most(ast::count_of(*ctx))).count().map(Val::N).fin(),
+            _ => p.repeated().try_configure(tc).count().map(Val::N).fin(),
+        }
     }
     fn try_rep_ctx(p: BP<'a, I, Self>) -> BP<'a, I, Self> {
         p.repeated()
@@ -1009,6 +1031,7 @@ fn build0<'a, I: InK<'a>, C: Cfg<'a, I>>(g: &G, pr: Probes) -> BP<'a, I, C> {
         RepCtxMax(a) => C::rep_ctx_max(build::<I, C>(a, pr)),
         TryRepCtx(a) => C::try_rep_ctx(build::<I, C>(a, pr)),
         RepCtxPre(a, st, kind) => C::rep_ctx_pre(build::<I, C>(a, pr), *st, *kind),
+        CtxBare(kind, a) => C::ctx_bare(build::<I, C>(a, pr), *kind),
         IterChain(parts, sink) => build_chain::<I, C>(parts, sink, pr),
         IntoIter(a, sink) => {
             if matches!(sink, Sink::Str) {
